@@ -28,6 +28,34 @@ def over_16_live(rep):
     rep.add(ob)
 
 
+def recursive_programs(rep):
+    """recursive functions hold values across their own activations: they must be rejected (as the unchanged tree does) or be
+    allocated soundly; a fixed set of programs, each judged by the allocation validator and by the effect comparison"""
+    from bounded import props as P
+
+    h = "from stationeers_pytrapic.symbols import *\n"
+    progs = [h + "def fact(n):\n    if n <= 1:\n        return 1\n    m = fact(n - 1)\n    return n * m\ndb.Setting = fact(d0.Setting)\ndb.On = fact(3)\n",
+             h + "def fib(n):\n    if n < 2:\n        return n\n    a = fib(n - 1)\n    b = fib(n - 2)\n    return a + b\nwhile True:\n    db.Setting = fib(d0.Setting)\n    db.On = fib(4)\n    yield_()\n",
+             h + "def down(n):\n    t = n * 2\n    if n > 0:\n        down(n - 1)\n    db.Setting = t\ndown(d0.Setting)\ndown(2)\n",
+             h + "def ping(n):\n    k = n + 1\n    if n > 0:\n        pong(n - 1)\n    db.On = k\ndef pong(n):\n    j = n * 3\n    if n > 0:\n        ping(n - 1)\n    db.Setting = j\nping(d0.Setting)\nping(2)\n"]
+    t0 = time.time()
+    bad, compiled = None, 0
+    for src in progs:
+        rec = P.full_task((0, {"sources": src}, "calls", ["C04", "C01", "C02"]))
+        compiled += rec.get("n_compiled", 0) or 0
+        f = rec.get("fails", {})
+        hit = f.get("C04") or f.get("C02") or f.get("C01")
+        if hit and bad is None:
+            bad = (src, hit[0])
+    ob = Ob("compiler.compile_code#recursive_functions_are_rejected_or_allocated_soundly", HELD if not bad else VIOLATED, kind="bounded", backend="native", target="compiler.compile_code",
+            bound=f"{len(progs)} recursive programs (direct, double, effect after the call, mutual) x 7 option vectors; {compiled} compilations accepted", time_s=time.time() - t0)
+    if bad:
+        ob.witness, ob.replayed = {"sources": bad[0], "options": bad[1]["options"]}, True
+        ob.detail["observed"] = bad[1]["what"]
+        ob.detail["emitted_code"] = bad[1].get("code")
+    rep.add(ob)
+
+
 def run(tier, seed):
     rep = Report("C04", tier, seed, level="exploration")
     from bounded.driver import replay_known, run_bounded
@@ -57,6 +85,7 @@ def run(tier, seed):
                              ("modules", {"modules": True, "collide": False}, "modules", 300 if q else 6000),
                              ("modules-state", {"modules": True, "state_only": True}, "modules", 150 if q else 3000)],
                 budget_s=75 if q else 1500, seed=seed, want=["C04", "C01", "C02"])
+    recursive_programs(rep)
     rep.trust("spec/ic10_machine.py, spec/dialect.py (a clobbered live value shows up as a difference of effects)", "pyvc symbolic execution of assign_colors (complete unrolling for n symbols)")
     rep.assume("assign_colors is proved for every number of symbols (track U: 2 loop invariants of 10 + 9 clauses, ghost owner lists / slot fields; mathematical integers); the K obligations (n <= N, complete unrolling) are an independent second encoding of the same function and are labelled bounded",
                "U proof: quantified obligations are discharged by z3 e-matching (MBQI off); 'hypotheses consistent' guards can only show that false is not derivable by instantiation, not exhibit a model",
